@@ -299,17 +299,36 @@ const genHeader = "(* GENERATED by verif-extract from /repo — do not edit. *)\
 
 func retFirst(t *tr, rs []ast.Expr) string { return t.expr(rs[0]) }
 
+// paramNames: the names of the n parameters of a function, in order
+func paramNames(t *tr, fd *ast.FuncDecl, n int) []string {
+	var names []string
+	for _, fl := range fd.Type.Params.List {
+		for _, id := range fl.Names {
+			names = append(names, id.Name)
+		}
+	}
+	if len(names) != n {
+		t.fail(fd, fmt.Sprintf("expected %d parameters, found %d", n, len(names)))
+	}
+	return names
+}
+
 func genPattern(repo string) string {
 	fset := token.NewFileSet()
 	f := parseFile(fset, filepath.Join(repo, "validator/capability.go"))
 	var sb strings.Builder
 	sb.WriteString(genHeader)
 	t := &tr{fset, env{calls: map[string]string{}, consts: map[string]string{}, ret: retFirst}}
+	// parameter names are taken from the source (a renamed parameter is not a change of the function)
 	fd := mustFunc(f, "ResolveAbility", "")
-	fmt.Fprintf(&sb, "Definition ResolveAbility (pattern can : bstr) : outcome bstr :=\n %s.\n\n", t.stmts(fd.Body.List))
+	pn := paramNames(t, fd, 2)
+	fmt.Fprintf(&sb, "Definition ResolveAbility (%s %s : bstr) : outcome bstr :=\n %s.\n\n", pn[0], pn[1], t.stmts(fd.Body.List))
 	fd = mustFunc(f, "ResolveResource", "")
-	fmt.Fprintf(&sb, "Definition ResolveResource (source uri : bstr) : outcome bstr :=\n %s.\n\n", t.stmts(fd.Body.List))
-	t.e.calls = map[string]string{"delegated.With()": "dwith", "claimed.With()": "cwith"}
+	pn = paramNames(t, fd, 2)
+	fmt.Fprintf(&sb, "Definition ResolveResource (%s %s : bstr) : outcome bstr :=\n %s.\n\n", pn[0], pn[1], t.stmts(fd.Body.List))
+	fd = mustFunc(f, "DefaultDerives", "")
+	pn = paramNames(t, fd, 2)
+	t.e.calls = map[string]string{pn[1] + ".With()": "dwith", pn[0] + ".With()": "cwith"}
 	t.e.ret = func(t *tr, rs []ast.Expr) string {
 		if isNil(rs[0]) {
 			return "(ret true)"
@@ -320,7 +339,6 @@ func genPattern(repo string) string {
 		t.fail(rs[0], "return form")
 		return ""
 	}
-	fd = mustFunc(f, "DefaultDerives", "")
 	fmt.Fprintf(&sb, "Definition DefaultDerives (cwith dwith : bstr) : outcome bool :=\n %s.\n", t.stmts(fd.Body.List))
 	return sb.String()
 }
